@@ -1,7 +1,7 @@
 PROP = dict(
     properties="Properties/C08.v",
     harness_mods=["Harness/C08.v"],
-    runs=[dict(cmd="c08", quick=420, thorough=24000)],
+    runs=[dict(cmd="c08", quick=700, thorough=24000)],
     trusted_base=[
         "hand-written Gallina model coq/Mempool/Model.v of pkg/core/mempool/mem_pool.go (tied by correspondence on the public API, not by translation)",
         "coq/Harness/C08.v: the specification of the property text evaluated on the observations (obs_inv, add_ok_spec)",
